@@ -39,6 +39,7 @@ type Exch struct {
 	Fwd    time.Duration
 	SRx    time.Time // server clock
 	STx    time.Time // server clock: transmit time recorded for this exchange
+	STxAlt time.Time // software transmit time carried by the (basic) reply itself, when it differs
 	Resp   ntp.Packet
 	// For interleaved replies: the exchange whose transmit time the reply carries.
 	Carries *Exch
@@ -46,6 +47,10 @@ type Exch struct {
 	CRx      []time.Time
 	Bwd      []time.Duration
 	Accepted bool
+	// NoKernelTx: the (real) server could not read a kernel transmit timestamp
+	// for this exchange; its record must have been dropped, so no later
+	// interleaved reply may carry this exchange.
+	NoKernelTx bool
 }
 
 // Reply is a reply datagram on its way to the client.
@@ -201,7 +206,7 @@ func (s *Sim) Match(tu Tuple) (*Exch, int) {
 	const tol = 2 * time.Nanosecond
 	const slack = 200 * time.Nanosecond
 	for _, e := range s.Exchs {
-		if !near(tu.T1, e.SRx, tol) || !near(tu.T2, e.STx, tol) {
+		if !near(tu.T1, e.SRx, tol) || !(near(tu.T2, e.STx, tol) || (!e.STxAlt.IsZero() && near(tu.T2, e.STxAlt, tol))) {
 			continue
 		}
 		t0ok := !e.CTx.IsZero() && near(tu.T0, e.CTx, tol)
